@@ -48,6 +48,28 @@ def module_attr(I, v: VModule, attr):
     return VModule(full)
 
 
+def encodable_closure(run, t, depth=0):
+    """instances of: a string built from encodable strings by case mapping, stripping, joining, slicing, concatenation or replacement is
+    encodable (these operations never create a lone surrogate that was not in an argument -- slicing works on code points)"""
+    S_ = z3.StringSort()
+    enc = _fn("encodable", S_, z3.BoolSort())
+    if depth > 6 or not z3.is_app(t) or t.sort() != S_:
+        return
+    if z3.is_string_value(t):
+        run.assume(enc(t))
+        return
+    kids = [c for c in t.children() if c.sort() == S_]
+    if not kids:
+        return
+    name = t.decl().name()
+    if name in ("str.++", "str.substr", "str.at", "str.replace", "str.replace_all", "if") or name.startswith("str_") or name in ("join", "re_sub", "json_dumps"):
+        if name == "if":
+            kids = [c for c in t.children()[1:] if c.sort() == S_]
+        run.assume(z3.Implies(z3.And([enc(k) for k in kids]), enc(t)))
+        for k in kids:
+            encodable_closure(run, k, depth + 1)
+
+
 def call_external(I, name, args, kwargs, node, frame):
     run = I.run
     if name.split(".")[0] in ("hashlib", "uuid", "json", "re", "ast", "random", "statistics") or name in ("math.exp", "math.log", "math.log2", "math.log10", "math.tanh", "math.sin", "math.cos"):
@@ -498,6 +520,7 @@ def str_method(I, s, name, args, kwargs):
                 # with an error handler the utf-8 encoder is total on str
                 return VAny(_fn("encode_" + e_.as_string(), S, AnySort)(s.t), "bytes")
         ok = _fn("encodable", S, z3.BoolSort())(s.t)
+        encodable_closure(run, s.t)
         if not run.decide(ok, f"encodable({s.t})"[:60]):
             raise E.PyExc(VExc("UnicodeEncodeError"), "str.encode")
         return VAny(_fn("encode", S, AnySort)(s.t), "bytes")
@@ -515,6 +538,8 @@ def str_method(I, s, name, args, kwargs):
         try:
             items = I.iterate_concrete(args[0])
         except E.Unsupported:
+            if "str.join/split result unconstrained" not in run.abstractions:
+                run.abstractions.append("str.join/split result unconstrained")      # an over-approximation: failures on this path need a replayed witness
             return VStr(z3.Const(run.fresh_name("join"), S))
         if not items:
             return VStr("")
@@ -529,6 +554,8 @@ def str_method(I, s, name, args, kwargs):
     if name == "split" or name == "splitlines" or name == "rsplit":
         n = z3.Int(run.fresh_name("split#len"))
         run.assume(n >= (1 if name != "splitlines" else 0))
+        if "str.join/split result unconstrained" not in run.abstractions:
+            run.abstractions.append("str.join/split result unconstrained")
         nm = run.fresh_name("split")
         rec = ListRec(None, n, ("str",), z3.Array(nm + "#arr", z3.IntSort(), S), sym=nm)
         return VRef(run.alloc(rec), "list")
@@ -608,6 +635,18 @@ def list_method(I, ref, r, name, args, kwargs):
             for i, x in enumerate(r.items):
                 if run.decide(I.eq(x, args[0]), "index eq"):
                     return VInt(i)
+            raise E.PyExc(VExc("ValueError"), "list.index")
+        if r.arr is not None and len(args) == 1:
+            # symbolic list of primitives: some position holding the value (the first one), or ValueError when it does not occur
+            xt = I.term_of(args[0], r.elem)
+            i_ = z3.Int(run.fresh_name("index"))
+            j_ = z3.Int(run.fresh_name("j!idx"))
+            found = z3.And(i_ >= 0, i_ < r.length, z3.Select(r.arr, i_) == xt)
+            if run.choose([("found", found), ("ValueError", None)], "list.index") == 0:
+                run.inputs[str(i_)] = i_
+                run.assume(z3.ForAll([j_], z3.Implies(z3.And(j_ >= 0, j_ < i_), z3.Select(r.arr, j_) != xt)))
+                return VInt(i_)
+            run.assume(z3.ForAll([j_], z3.Implies(z3.And(j_ >= 0, j_ < r.length), z3.Select(r.arr, j_) != xt)))
             raise E.PyExc(VExc("ValueError"), "list.index")
     if name == "count" and r.concrete:
         return VInt(z3.Sum([z3.If(I.eq(x, args[0]), 1, 0) for x in r.items] or [z3.IntVal(0)]))
